@@ -829,7 +829,7 @@ func rulePrefixAgree(r *Run) {
 	}
 	muxPar := fn.Params[0]
 	n := 0
-	eachInstr(fn, func(in ssa.Instruction) {
+	p.eachInstrRegion(fn, func(_ *ssa.Function, in ssa.Instruction) {
 		c, ok := in.(ssa.CallInstruction)
 		if !ok || calleeName(c) != "(*net/http.ServeMux).Handle" {
 			return
@@ -842,7 +842,7 @@ func rulePrefixAgree(r *Run) {
 		if mi, ok := h.(*ssa.MakeInterface); ok {
 			hroot = mi.X
 		}
-		if hroot == ssa.Value(muxPar) {
+		if p.onlyFrom(hroot, muxPar) {
 			s, isC := constString(pat)
 			r.check(isC && s == "/", key, in.Pos(), "the bare mux is mounted at \"/\"", "the bare mux (no StripPrefix) is mounted under a pattern other than \"/\": requests reach it with the prefix still on the path")
 			return
@@ -856,7 +856,7 @@ func rulePrefixAgree(r *Run) {
 		if mi, ok := inner.(*ssa.MakeInterface); ok {
 			inner = mi.X
 		}
-		if inner != ssa.Value(muxPar) {
+		if !p.onlyFrom(inner, muxPar) {
 			r.bad(key, in.Pos(), "StripPrefix does not wrap the mux")
 			return
 		}
@@ -1018,7 +1018,80 @@ func ruleDefaultRoot(r *Run) {
 			good = true
 		}
 	})
+	if !good {
+		good = p.defaultRootByValue(fn, mpF)
+	}
 	r.check(good, "NewServer/default-root", fn.Pos(), "no patterns means the mux is mounted at \"/\"", "without MuxHandleOption the mux is not mounted at \"/\"")
+}
+
+// defaultRootByValue: the list of patterns that is ranged over to mount the mux (in NewServer or a transparent
+// helper) is, when the configured list is empty, the literal {"/"} — written with a local variable instead of a
+// store back into the options.
+func (p *Program) defaultRootByValue(fn *ssa.Function, mpF *types.Var) bool {
+	good := false
+	for _, g := range p.region(fn) {
+		hasHandle := false
+		eachInstr(g, func(in ssa.Instruction) {
+			if c, ok := in.(ssa.CallInstruction); ok && calleeName(c) == "(*net/http.ServeMux).Handle" {
+				hasHandle = true
+			}
+		})
+		if !hasHandle {
+			continue
+		}
+		eachInstr(g, func(in ssa.Instruction) {
+			ia, ok := in.(*ssa.IndexAddr)
+			if !ok {
+				return
+			}
+			st, ok := ia.X.Type().Underlying().(*types.Slice)
+			if !ok {
+				return
+			}
+			if b, ok := st.Elem().Underlying().(*types.Basic); !ok || b.Kind() != types.String {
+				return
+			}
+			for _, bind := range p.bindings(g) {
+				seq := bind.subst(ia.X)
+				fromOpt, rootWhenEmpty := false, false
+				for _, l := range p.guardedLeaves(seq) {
+					if loadsField(l.v, mpF) {
+						fromOpt = true
+						continue
+					}
+					isRoot := false
+					els := p.flattenAppend(l.v, 0)
+					if len(els) == 1 {
+						if s, isC := constString(els[0]); isC && s == "/" {
+							isRoot = true
+						}
+					}
+					if !isRoot {
+						continue
+					}
+					for _, gf := range p.expandFacts(l.facts) {
+						if x, y, op, ok := gf.cmp(); ok {
+							if lc, ok := x.(*ssa.Call); ok && calleeName(lc) == "builtin.len" {
+								fromField := false
+								for _, o := range p.origins(lc.Call.Args[0], originOpts{}) {
+									if loadsField(o, mpF) {
+										fromField = true
+									}
+								}
+								if k, isC := constInt(y); isC && fromField && ((k == 0 && (op == token.EQL || op == token.LEQ)) || (k == 1 && op == token.LSS)) {
+									rootWhenEmpty = true
+								}
+							}
+						}
+					}
+				}
+				if fromOpt && rootWhenEmpty {
+					good = true
+				}
+			}
+		})
+	}
+	return good
 }
 
 func ruleH2Wired(r *Run) {
